@@ -920,6 +920,39 @@ def relation_violations(case, res):
     return out
 
 
+def soundness_violations(case, res):
+    """C07_molecule_one_sample / _one_hash / _arrival_order restated on the implementation's outputs, for EVERY run
+    (every schedule, pooling method, cache size; no hypothesis on the input): the members of a yielded molecule share
+    the sample, with pooling_method 1 also the match_hash, and are listed in arrival order (ids are arrival indices)."""
+    absf = res['abs']
+    byid = {f[0]: f for f in absf}
+    out = []
+    for cfg, run in zip(case['cfgs'], res['runs']):
+        if run['error'] is not None:
+            continue
+        for st in list(run['steps']) + [run['flush']]:
+            for m in st:
+                ids = list(m[0])
+                if len(ids) < 2 or any(i not in byid for i in ids):
+                    continue
+                smp = sorted(set(byid[i][2] for i in ids))
+                if len(smp) > 1:
+                    out.append(('molecule-mixes-samples', 'check_eject_every=%r pooling_method=%d: the yielded molecule %r '
+                                'holds fragments of the samples %r' % (cfg['every'], cfg['pooling'], ids, smp), cfg))
+                    break
+                hs = sorted(set(byid[i][8] for i in ids))
+                if cfg['pooling'] == 1 and len(hs) > 1:
+                    out.append(('molecule-mixes-match-hashes', 'check_eject_every=%r pooling_method=1: the yielded molecule %r '
+                                'holds fragments with %d different match_hash values' % (cfg['every'], ids, len(hs)), cfg))
+                    break
+                if ids != sorted(ids):
+                    out.append(('molecule-members-out-of-arrival-order', 'check_eject_every=%r pooling_method=%d: the yielded '
+                                'molecule lists its fragments as %r, not in arrival order'
+                                % (cfg['every'], cfg['pooling'], ids), cfg))
+                    break
+    return out
+
+
 def spec_violations(case, res):
     """Direct Python transcription of the theorems' statements, evaluated on the implementation's outputs
     (no model involved): emit-once / completion for every run; under the precondition also
@@ -975,6 +1008,7 @@ def spec_violations(case, res):
                         % (run['late'][0][1], run['late'][0][0], run['late'][0][2]) if run['late'][0][0] != 'error'
                         else 'late-join evaluation failed: %r' % (run['late'][0],), cfg))
     out += relation_violations(case, res)
+    out += soundness_violations(case, res)
     fresh = {(c['every'], c['pooling']): partition(x) for c, x in zip(case['cfgs'], res['runs']) if x['error'] is None}
     for h, rec in zip(case.get('histories', []), res.get('histories', [])):
         cfg = h['cfg']
